@@ -1,1 +1,77 @@
 import GolibsVerif.Model.Waiters
+import GolibsVerif.Lemmas.WaitersStep
+/-
+Consequences of the Waiters invariant used by the C07 theorems (the invariant itself:
+`Waiters.Inv` in Lemmas/WaitersInv.lean; preservation: Lemmas/WaitersStep.lean).
+-/
+namespace Waiters
+
+@[simp] theorem leave_ws (s : St) (k : String) (c : Nat) : (leave s k c).ws = s.ws := by
+  rcases leave_cases s k c with ⟨_, hl⟩ | ⟨n, _, _, hl⟩ | ⟨n, _, _, hl⟩ <;> rw [hl]
+
+@[simp] theorem leave_recs (s : St) (k : String) (c : Nat) : (leave s k c).recs = s.recs := by
+  rcases leave_cases s k c with ⟨_, hl⟩ | ⟨n, _, _, hl⟩ | ⟨n, _, _, hl⟩ <;> rw [hl]
+
+theorem Inv.mem_table {s : St} (hi : Inv s) {e : String × Nat × Nat} (he : e ∈ s.table) :
+    getEntry s e.1 = some (e.2.1, e.2.2) :=
+  lookup_of_mem s.table hi.tkeys e.1 e.2 he
+
+theorem Inv.chs_nodup {s : St} (hi : Inv s) : (s.table.map (·.2.1)).Nodup := by
+  have h := hi.tkeys
+  unfold TKeys at h
+  rw [List.Nodup, List.pairwise_map] at h ⊢
+  refine h.imp_of_mem ?_
+  intro a b ha hb hab heq
+  have h1 := hi.mem_table ha
+  have h2 := hi.mem_table hb
+  rw [← heq] at h2
+  exact hab (hi.tinj a.1 b.1 a.2.1 a.2.2 b.2.2 h1 h2)
+
+/-- the effect of the first critical section on the waiter list, and when it returns -/
+theorem check_obs (s : St) (i : Nat) (w : W) (hw : s.ws[i]? = some w) :
+    ∃ w' : W, (∀ j,
+      ((let (s1, r) := live s w.key
+        match r with
+        | none => setW s1 i { w with pc := .returned .notExist }
+        | some v =>
+          if v ≠ w.ver then setW s1 i { w with pc := .returned .nil }
+          else match getEntry s1 w.key with
+            | some (ch, n) =>
+              setW { s1 with table := s1.table.map fun e => if e.1 == w.key then (w.key, ch, n + 1) else e } i { w with pc := .parked ch }
+            | none =>
+              setW { s1 with table := s1.table ++ [(w.key, s1.nextCh, 1)], nextCh := s1.nextCh + 1 } i { w with pc := .parked s1.nextCh } : St)).ws[j]?
+        = if j = i then some w' else s.ws[j]?) ∧
+      (∀ r, w'.pc = .returned r →
+        match r with
+        | .nil => ∃ v, (live s w.key).2 = some v ∧ v ≠ w.ver
+        | .notExist => (live s w.key).2 = none
+        | .ctxErr => False) := by
+  rcases live_cases s w.key with ⟨_, hl⟩ | ⟨r, _, _, hl⟩ | ⟨r, hr, hx, hl⟩
+  · rw [hl]
+    refine ⟨_, fun j => setW_get s i j w _ hw, ?_⟩
+    intro r hr; simp at hr; subst hr; rfl
+  · rw [hl]
+    have hw1 : (notify { s with recs := s.recs.filter (·.1 != w.key) } w.key).ws[i]? = some w := by simpa using hw
+    refine ⟨{ w with pc := .returned .notExist }, fun j => ?_, ?_⟩
+    · have := setW_get _ i j w { w with pc := .returned .notExist } hw1
+      simpa using this
+    · intro r hr; simp at hr; subst hr; rfl
+  · rw [hl]
+    dsimp only
+    by_cases hv : r.ver ≠ w.ver
+    · rw [if_pos hv]
+      refine ⟨_, fun j => setW_get s i j w _ hw, ?_⟩
+      intro r' hr'; simp at hr'; subst hr'; exact ⟨_, rfl, hv⟩
+    · rw [if_neg hv]
+      cases hen : getEntry s w.key with
+      | none =>
+        dsimp only
+        refine ⟨_, fun j => setW_get { s with table := s.table ++ [(w.key, s.nextCh, 1)], nextCh := s.nextCh + 1 } i j w _ hw, ?_⟩
+        intro r' hr'; simp at hr'
+      | some e =>
+        obtain ⟨ch, n⟩ := e
+        dsimp only
+        refine ⟨_, fun j => setW_get { s with table := s.table.map fun e => if e.1 == w.key then (w.key, ch, n + 1) else e } i j w _ hw, ?_⟩
+        intro r' hr'; simp at hr'
+
+end Waiters
